@@ -75,3 +75,59 @@ def handshake(gen: int):
 
 def viol(rule: str, detail, **sig) -> dict:
     return {"rule": rule, "detail": detail, "sig": sig}
+
+
+def client_frames(world) -> list[dict]:
+    """Every complete client frame on the wire tap: {seq, t, link, reading, fr} (time of its first byte)."""
+    w = wire(world.gen)
+    frames = []
+    for link in world.net.links:
+        buf = b"".join(d for (_s, _t, d) in link.tx_writes)
+        frs, _verdict, _consumed = w.parse_stream(buf)
+        offs, pos = [], 0
+        for (s, t, d) in link.tx_writes:
+            offs.append((pos, pos + len(d), s, t))
+            pos += len(d)
+        for fr in frs:
+            first = next(o for o in offs if o[0] <= fr["at"] < o[1])
+            frames.append({"seq": first[2], "t": first[3], "link": link.id, "reading": w.read(fr), "fr": fr})
+    frames.sort(key=lambda f: f["seq"])
+    return frames
+
+
+def delivered_frames(world) -> list[dict]:
+    """Console frames as they reached the client's transport (whole-frame chunks only): {seq, t, link, reading}."""
+    w = wire(world.gen)
+    out = []
+    buf = {}
+    for (seq, t, kind, f) in world.trace.events:
+        if kind != "rx.chunk":
+            continue
+        b = buf.setdefault(f["link"], bytearray())
+        b += bytes.fromhex(f["data"])
+        frs, verdict, consumed = w.parse_stream(bytes(b))
+        for fr in frs:
+            out.append({"seq": seq, "t": t, "link": f["link"], "reading": w.read(fr)})
+        if verdict.startswith("bad"):
+            b.clear()
+        else:
+            del b[:consumed]
+    return out
+
+
+def link_lifetimes(world) -> list[dict]:
+    """Per accepted link: established, first client-side close/force-close, lost."""
+    out = {}
+    for l in world.net.links:
+        if l.t_accept is not None:
+            out[l.id] = {"id": l.id, "up": l.t_accept, "close": None, "close_kind": None, "lost": None}
+    for (seq, t, kind, f) in world.trace.events:
+        lid = f.get("link")
+        if lid not in out:
+            continue
+        if kind in ("conn.close", "conn.force_close") and out[lid]["close"] is None:
+            out[lid]["close"] = t
+            out[lid]["close_kind"] = kind
+        elif kind == "conn.lost" and out[lid]["lost"] is None:
+            out[lid]["lost"] = t
+    return [out[k] for k in sorted(out)]
